@@ -295,8 +295,13 @@ def sweepmatch_cases(quick):
     for size in itertools.product(range(3, top + 1), repeat=3):
         out.append(dict(base, decoder='SweepMatchDecoder',
                         code=domain.code_case('Toric3DCode', size)))
-        out.append(dict(base, decoder='RotatedSweepMatchDecoder',
-                        code=domain.code_case('RotatedPlanar3DCode', size)))
+        # every documented budget buys at least one full round of the eight
+        # sweep directions, which is what a single-qubit error needs
+        for dp in ({}, {'max_rounds': 1}, {'max_rounds': 2}, {'max_rounds': 5}):
+            if dp and quick and sum(size) % 2:
+                continue
+            out.append(dict(base, decoder='RotatedSweepMatchDecoder', dparams=dp,
+                            code=domain.code_case('RotatedPlanar3DCode', size)))
     return out
 
 
